@@ -55,6 +55,15 @@ PLANS = {
         "gen": [gen("cmp", "pairs", ["compare"]), gen("cmp2", "pairs2", ["compare"])],
         "bounds": "all ordered pairs of the 70-document pair universe (number encodings of equal value, 2^53 neighbours, prefixes, length-only and deep differences)",
     },
+    "C07": {
+        "gen": [
+            {"name": "chain1", "module": "System", "constants": {"ChainLen": "1", "Walkers": "0"}, "invariants": ["GenInv"],
+             "tier_constants": {"quick": {"StartSet": '"tiny"'}, "thorough": {"StartSet": '"small"'}}},
+            {"name": "walks", "module": "System", "constants": {"StartSet": '"full"'}, "invariants": ["GenInv"],
+             "tier_constants": {"quick": {"ChainLen": "6", "Walkers": "1500"}, "thorough": {"ChainLen": "10", "Walkers": "20000"}}},
+        ],
+        "bounds": "exhaustive: every enabled step (19 functions x arguments drawn from the current documents x source/destination registers) from every pair of start documents; random walks of the state machine: quick 1500 walks x 6 steps, thorough 20000 x 10, each replayed on the real crate with its own output bytes threaded from call to call and all results appended to one buffer",
+    },
     "C08": {
         "gen": [
             {"name": "nav", "module": "GenPath", "constants": {"Family": '"nav"'}, "tier_constants": {"quick": {"MaxSteps": "1"}, "thorough": {"MaxSteps": "2"}}},
@@ -137,5 +146,14 @@ PLANS = {
         "gen": [gen("num", "num", ["num", "num_decode", "casts"]),
                 gen("numpairs", "numpairs", ["num_cmp"])],
         "bounds": "80-number boundary set (every width boundary +-1 of both integer encodings, 2^53/2^63/2^64 neighbourhoods, IEEE class boundaries): all numbers, all ordered pairs; decoder: 11 tags x 3 fillers x lengths 0..10",
+    },
+    "C20": {
+        "gen": [gen("extreme", "extreme", ["delete_by_index", "array_insert", "get_by_keypath", "delete_by_keypath", "get_by_index"], rp="{0, 1}"),
+                {"name": "extremepath", "module": "GenPath", "constants": {"Family": '"err"', "MaxSteps": "0"}},
+                {"name": "limits", "module": "Limits", "constants": {"W": "6"}, "invariants": ["OutcomeOk"]},
+                {"name": "deep", "module": "GenDeep", "constants": {},
+                 "tier_constants": {"quick": {"Depths": "{1000, 10000, 100000}"}, "thorough": {"Depths": "{100, 1000, 3000, 10000, 30000, 100000, 300000}"}}}],
+        "bounds": "index and position arguments at {i32::MIN, MIN+1, -len-1, -len, -1, 0, len-1, len, len+1, MAX-1, MAX} for delete_by_index, array_insert, both key-path functions (at depth 1 and 2, JSONB and text) and JSONPath index forms; 25 routines x {array, object, alternating} nesting x depths on a geometric ladder up to 300000 (quick: 1000/10000/100000), each in a child process with an 8 MiB stack; index-arithmetic laws model-checked on a 6-bit scaled copy",
+        "assumptions": ["stack exhaustion is observed with the default 8 MiB thread stack of this harness build (opt-level 1); frame sizes of other builds differ, which is why recorded findings name a ladder rung one step shallower than the first observed crash"],
     },
 }
